@@ -20,7 +20,7 @@ PROPS = {
                 relevant={"pull", "sread", "stats", "adv", "clock", "csub"}),
     "C05": dict(module="Deltio.Props.C05", conc=[("mix", 60, 3000)], trace_kinds={"modify"}, seq=[("deadlines", 300, 12000, 50)], pure=["ext", "tracker"],
                 relevant={"mod", "ssend", "pull", "sread", "stats"}),
-    "C08": dict(module="Deltio.Props.C08", p6=True, conc=[("mix", 120, 5000), ("pubdel", 150, 4000)], trace_kinds={"publish", "publish.ids", "post", "post.order", "pull"}, seq=[("data", 200, 8000, 50), ("general", 100, 4000, 40), ("bigmsg", 1, 6, 0)], pure=[],
+    "C08": dict(module="Deltio.Props.C08", p6=True, conc=[("mix", 120, 5000), ("pubdel", 150, 4000), ("bigpub", 12, 200)], trace_kinds={"publish", "publish.ids", "post", "post.order", "pull"}, seq=[("data", 200, 8000, 50), ("general", 100, 4000, 40), ("bigmsg", 1, 6, 0)], pure=[],
                 relevant={"pub", "pull", "sread"}),
     "C09": dict(module="Deltio.Props.C09", push=True, conc=[("mix", 60, 3000), ("pubdel", 200, 5000)], trace_kinds={"publish", "publish.ids", "pull"}, seq=[("general", 200, 8000, 40), ("data", 100, 4000, 50)], pure=[],
                 relevant={"pub", "pull", "sread"}),
@@ -30,11 +30,11 @@ PROPS = {
                 relevant={"dsub", "dtopic", "ltsubs", "wtsubs", "gsub", "lsubs", "wsubs", "stats", "ctopic", "csub", "pub", "pull"}),
     "C13": dict(module="Deltio.Props.C13", trace_kinds={"attach", "remove"}, seq=[("namespace", 250, 10000, 50), ("listing", 150, 6000, 60)], pure=["tokens"],
                 relevant={"ltopics", "lsubs", "ltsubs", "wtopics", "wsubs", "wtsubs"}),
-    "C15": dict(module="Deltio.Props.C15", conc=[("mix", 60, 3000), ("wake", 60, 3000)], trace_kinds={"pull", "pull.count"}, seq=[("batches", 80, 3000, 40), ("data", 100, 4000, 50), ("general", 100, 4000, 40), ("bigbacklog", 2, 12, 0)], pure=[],
+    "C15": dict(module="Deltio.Props.C15", conc=[("mix", 60, 3000), ("wake", 60, 3000), ("abandonpull", 80, 2000)], trace_kinds={"pull", "pull.count"}, seq=[("batches", 80, 3000, 40), ("data", 100, 4000, 50), ("general", 100, 4000, 40), ("bigbacklog", 2, 12, 0)], pure=[],
                 relevant={"pull", "sread", "sopen"}),
     "C17": dict(module="Deltio.Props.C17", trace_kinds=set(), seq=[("malformed", 300, 12000, 50)], pure=["names", "tokens", "ext", "ackids"],
                 relevant=ALL_SEQ_OPS),
-    "C06": dict(module="Deltio.Props.C06", seq=[], pure=[], conc=[("race", 1500, 40000), ("wake", 400, 10000), ("swallow", 300, 8000), ("wakecancel", 300, 6000), ("mix", 100, 4000)],
+    "C06": dict(module="Deltio.Props.C06", seq=[], pure=[], conc=[("race", 1500, 40000), ("wake", 400, 10000), ("swallow", 300, 8000), ("wakecancel", 300, 6000), ("mix", 100, 4000), ("limitwake", 60, 1500)],
                 relevant={"pull", "probe", "sread", "stats"}, trace_kinds={"pull", "post", "modify", "expire"}),
     "C07": dict(module="Deltio.Props.C07", seq=[], pure=[], conc=[("burst", 150, 4000), ("delete", 150, 4000), ("cancel", 150, 4000), ("namerace", 200, 5000), ("pulllimit", 60, 2000)],
                 relevant=ALL_SEQ_OPS, trace_kinds={"delete.begin", "delete.end", "remove"}),
@@ -406,9 +406,12 @@ class Check:
         """C14: the real push loop against a scripted HTTP endpoint (real clock)."""
         table, _, _ = run_model("pure", "\n".join("push.accepts %d" % st for st in range(100, 600)) + "\n")
         accepts = {100 + i: v == "1" for i, v in enumerate(table)}
+        dtab, _, _ = run_model("pure", "\n".join("push.dispatch %s" % o for o in ["close", "hang"] + [str(st) for st in range(100, 600)]) + "\n")
+        dispatch = dict(zip(["close", "hang"] + [str(st) for st in range(100, 600)], dtab))
         scen = [gen_push.scenario(rng.fork("push/%d" % i), self.tier) for i in range(1 if self.tier == "quick" else 4)]
         if self.prop == "C14":
             scen.append(gen_push.slow_sibling(rng))
+            scen.append(gen_push.midround_delete(rng.fork("push/mid")))
         if self.tier != "quick" and self.prop == "C14":
             scen.append(gen_push.slow_102(rng))
         nd = 0
@@ -423,6 +426,9 @@ class Check:
             self.evaluations += len(meta["msgs"])
             self.traces += 1
             fails, corr = oracles.c14_push(lines, answers, meta, lambda st: accepts.get(st, False))
+            fails = fails + oracles.c14_midround(lines, answers, meta)
+            if self.prop == "C14":
+                corr = corr + oracles.c14_dispatch(lines, answers, meta, lambda o: dispatch.get(o, "?"))
             for d in meta["msgs"]:
                 self.distinct.add("push/" + d)
             for sig, msg in fails:
